@@ -220,6 +220,9 @@ def draw_attr_value(draw, a, g, op=None):
     if k in ('num', 'fdoubl'):
         if a.nested and draw(st.booleans()):
             rows, cols = draw(st.integers(1, 3)), draw(st.integers(1, 3))
+            if draw(st.integers(0, 2)) == 0:
+                deep = draw(st.integers(1, 2))
+                return [[[draw(nums(p)) for _ in range(cols)] for _ in range(deep)] for _ in range(rows)], True
             return [[draw(nums(p)) for _ in range(cols)] for _ in range(rows)], True
         return many(lambda: draw(nums(p))), True
     if k == 'int':
@@ -522,15 +525,21 @@ def draw_meta(draw, kind, g):
                 elem = lambda: draw(st.integers(-2 ** 31, 2 ** 31 - 1))
             else:
                 elem = lambda: draw(floats(p))
-            if nz and draw(st.integers(0, 2)) == 0:
+            shape_mode = draw(st.integers(0, 5)) if nz else 0
+            if shape_mode in (1, 2):
                 cols = draw(st.integers(1, 3))
                 v = [[elem() for _ in range(cols)] for _ in range(nv)]
+            elif shape_mode == 3:
+                # every value is a small matrix (three levels of nesting)
+                r_, c_ = draw(st.integers(1, 2)), draw(st.integers(1, 3))
+                v = [[[elem() for _ in range(c_)] for _ in range(r_)] for _ in range(nv)]
             else:
                 v = [elem() for _ in range(nv)]
             u = draw_units(draw, p)
             op['attrs']['values'] = {'v': v, 'u': u, 'r': draw_route(draw, p, u is not None)}
             if isinstance(v[0], list):
-                draw_dimension_and_axis(draw, g, op, [len(v[0])])
+                dims = [len(v[0])] + ([len(v[0][0])] if isinstance(v[0][0], list) else [])
+                draw_dimension_and_axis(draw, g, op, dims)
         else:
             draw_dimension_and_axis(draw, g, op, None)
         if kind == 'computation':
@@ -563,14 +572,20 @@ def draw_meta(draw, kind, g):
                                                          'minus_tolerance', 'measurement', 'reference'))
         n = draw(st.integers(1, 3))
         cols = draw(st.integers(0, 3))
+        depth3 = cols > 0 and draw(st.integers(0, 3)) == 0
+        rws = draw(st.integers(1, 2)) if depth3 else 0
         for key in ('maximum_deviation', 'standard_deviation', 'standard', 'plus_tolerance', 'minus_tolerance'):
             if draw(st.booleans()):
-                v = [draw(nums(p)) for _ in range(n)] if cols == 0 else \
-                    [[draw(nums(p)) for _ in range(cols)] for _ in range(n)]
+                if cols == 0:
+                    v = [draw(nums(p)) for _ in range(n)]
+                elif depth3:
+                    v = [[[draw(nums(p)) for _ in range(cols)] for _ in range(rws)] for _ in range(n)]
+                else:
+                    v = [[draw(nums(p)) for _ in range(cols)] for _ in range(n)]
                 u = draw_units(draw, p)
                 op['attrs'][key] = {'v': v, 'u': u, 'r': draw_route(draw, p, u is not None)}
         if cols:
-            draw_dimension_and_axis(draw, g, op, [cols])
+            draw_dimension_and_axis(draw, g, op, [rws, cols] if depth3 else [cols])
         for key in ('measurement', 'reference'):
             if draw(st.integers(0, 2)) == 0:
                 u = draw_units(draw, p)
